@@ -10,7 +10,7 @@
 // The subset: parameters and locals of type string, int, bool, byte, rune, []string, []rune,
 // [][]int, *string; if / else, return (also of several values), := and =, element assignment,
 // `for i, x := range` over slices and strings, len, index and slice expressions, comparison,
-// arithmetic and short-circuit logic, conversions []rune(s), and calls of a fixed table of
+// arithmetic and short-circuit logic, conversions []rune(s), append of one element, and calls of a fixed table of
 // standard-library functions and of other translated functions.  Anything else makes the
 // function `Untranslatable`, which breaks its theorem (reported, never silently skipped).
 package main
@@ -35,6 +35,7 @@ var wanted = []string{
 	"formatBase", "isStringFalsy",
 	"isPrint", "quoteIfNeeded", "quoteIfNeededV", "quoteV", "unquoteIfPossible", "iniNeedsQuote",
 	"levenshtein", "closestChoice",
+	"manQuote", "manQuoteLines",
 }
 
 type unsupported struct{ why string }
@@ -218,6 +219,13 @@ func (t *tr) expr(e ast.Expr, pre *[]string) string {
 		return v
 	case *ast.CallExpr:
 		return t.call(x, pre)
+	case *ast.CompositeLit:
+		if len(x.Elts) == 0 {
+			if _, ok := t.info.Types[e].Type.(*types.Slice); ok {
+				return "([] : " + t.leanType(t.info.Types[e].Type) + ")"
+			}
+		}
+		fail("composite literal")
 	}
 	fail("expression %T", e)
 	return ""
@@ -308,6 +316,11 @@ func (t *tr) call(x *ast.CallExpr, pre *[]string) string {
 		switch f.Name {
 		case "len":
 			return "(Go.len " + t.expr(x.Args[0], pre) + ")"
+		case "append":
+			if len(x.Args) != 2 || x.Ellipsis.IsValid() {
+				fail("append of other than one element")
+			}
+			return "(" + t.expr(x.Args[0], pre) + " ++ [" + t.expr(x.Args[1], pre) + "])"
 		case "make":
 			ty := t.info.Types[x.Args[0]].Type
 			sl, ok := ty.(*types.Slice)
@@ -354,6 +367,21 @@ func (t *tr) call(x *ast.CallExpr, pre *[]string) string {
 					return "(Go.strconvQuote E " + a[0] + ")"
 				case "strconv.Unquote":
 					return "(Go.strconvUnquote " + a[0] + ")"
+				case "strings.Replace":
+					// only "every occurrence" (n = -1) of a constant, non-empty old string
+					ntv, oldtv := t.info.Types[x.Args[3]], t.info.Types[x.Args[1]]
+					if ntv.Value == nil || ntv.Value.ExactString() != "-1" || oldtv.Value == nil || constant.StringVal(oldtv.Value) == "" {
+						fail("strings.Replace other than every occurrence of a constant")
+					}
+					return "(Go.stringsReplaceAll " + a[0] + " " + a[1] + " " + a[2] + ")"
+				case "strings.Split":
+					septv := t.info.Types[x.Args[1]]
+					if septv.Value == nil || len(constant.StringVal(septv.Value)) != 1 {
+						fail("strings.Split at other than one constant byte")
+					}
+					return fmt.Sprintf("(Bytes.splitOn %d %s)", constant.StringVal(septv.Value)[0], a[0])
+				case "strings.Join":
+					return "(Bytes.join " + a[1] + " " + a[0] + ")"
 				}
 				fail("call of %s", full)
 			}
